@@ -4,18 +4,18 @@
 (* driver flag word ncp->flags kept exactly as src/dispatchers/*.c and src/drivers/ncmpio/*.c keep them, *)
 (* one step function per API family).  Spec: the documented precedence lists as an ordered filter *)
 (* (Modes.rules / spec_err).  All theorems quantify over ARBITRARY call sequences cs from the closed state. *)
-(* every history stays inside the finite set RC of 97 cores computed by breadth-first search *)
 From Coq Require Import ZArith List.
 From Pnc Require Import Proofs_Modes.
 Set Printing Width 100.
 Set Printing Depth 100000.
 
-(* every reachable core is reached by at most REACH_K = 6 calls (bound tight) *)
+(* every history stays inside the finite set RC of 97 cores computed by breadth-first search *)
 Theorem C14_reachable_closed :
   forall cs : list Modes.call, In (Modes.co (Modes.run Modes.state0 cs)) RC.
 Proof. exact @reachable_in_table. Qed.
 Print Assumptions C14_reachable_closed.
 
+(* every reachable core is reached by at most REACH_K = 6 calls (bound tight: reachable_within_k_tight) *)
 Theorem C14_reachable_within_k :
   forall cs : list Modes.call,
          exists cs' : list Modes.call,
@@ -109,7 +109,6 @@ Theorem C14_close_pending_cancels_and_reports :
 Proof. exact @close_pending_cancels_and_reports. Qed.
 Print Assumptions C14_close_pending_cancels_and_reports.
 
-(* the unguarded statements are false of the code: ncmpi_redef keeps NC_MODE_INDEP in pncp->flag; NC_MODE_CREATE is never cleared there *)
 Theorem C14_layers_agree :
   forall (cs : list Modes.call) (o : Modes.ost),
          Modes.co (Modes.run Modes.state0 cs) = Modes.COpen o ->
@@ -124,18 +123,19 @@ Theorem C14_layers_agree :
 Proof. exact @layers_agree. Qed.
 Print Assumptions C14_layers_agree.
 
+(* the unguarded statement is false of the code: ncmpi_redef keeps NC_MODE_INDEP in pncp->flag (cleared by the next enddef) *)
 Theorem C14_layers_agree_indep_refuted :
   ~ layers_agree_indep_full.
 Proof. exact @layers_agree_indep_refuted. Qed.
 Print Assumptions C14_layers_agree_indep_refuted.
 
-(* precedence: partial = with the guard fvr_ok (fill_var_rec only in safe mode or once the dispatcher returns its error); *)
-(* current = full statement if Gen_modes.FILL_VAR_REC_RETURNS_ERR, its refutation otherwise *)
+(* the dispatcher's NC_MODE_CREATE bit is never cleared (and never read) *)
 Theorem C14_layers_agree_create_refuted :
   ~ layers_agree_create_full.
 Proof. exact @layers_agree_create_refuted. Qed.
 Print Assumptions C14_layers_agree_create_refuted.
 
+(* with the guard fvr_ok: fill_var_rec only in safe mode or once the dispatcher returns its sanity error *)
 Theorem C14_error_is_first_applicable_partial :
   forall (cs : list Modes.call) (c : Modes.call),
          fvr_ok (Modes.co (Modes.run Modes.state0 cs)) c = true ->
@@ -145,6 +145,7 @@ Theorem C14_error_is_first_applicable_partial :
 Proof. exact @error_is_first_applicable_partial. Qed.
 Print Assumptions C14_error_is_first_applicable_partial.
 
+(* the full statement if Gen_modes.FILL_VAR_REC_RETURNS_ERR (library repaired), its refutation otherwise *)
 Theorem C14_error_is_first_applicable_current :
   if Gen_modes.FILL_VAR_REC_RETURNS_ERR
          then error_is_first_applicable_full
@@ -152,7 +153,6 @@ Theorem C14_error_is_first_applicable_current :
 Proof. exact @error_is_first_applicable_current. Qed.
 Print Assumptions C14_error_is_first_applicable_current.
 
-(* the order of the error tests in the C sources (regenerated into Gen_modes.v) is the order the model uses *)
 Theorem C14_permitted_succeeds :
   forall (cs : list Modes.call) (c : Modes.call),
          Modes.permitted (Modes.co (Modes.run Modes.state0 cs))
@@ -161,6 +161,7 @@ Theorem C14_permitted_succeeds :
 Proof. exact @permitted_succeeds. Qed.
 Print Assumptions C14_permitted_succeeds.
 
+(* the order of the error tests in the C sources (regenerated into Gen_modes.v) is the order the model uses *)
 Theorem C14_source_order_matches_model :
   hd 0%Z Gen_modes.order_ncmpi_enddef = Gen_consts.NC_ENOTINDEFINE /\
          is_subseq (Gen_consts.NC_ENOTINDEFINE :: Gen_consts.NC_EINVAL :: nil)
